@@ -8,6 +8,7 @@ call's destination and a jump to its target), to a bounded depth.  Functions of 
 import copy
 import json
 import os
+import re
 
 HERE = os.path.dirname(os.path.abspath(__file__))
 BASELINE = os.path.join(os.path.dirname(HERE), "baseline_fns.json")
@@ -59,6 +60,49 @@ def _inline_one(caller, bi, callee):
             nb["stmts"].append({"k": "assign", "pl": copy.deepcopy(dest), "rv": {"k": "use", "ops": [{"k": "move", "pl": {"l": off_l, "p": []}}]}, "sp": sp, "inl": "ret"})
             nb["term"] = {"k": "goto", "target": target, "sp": sp} if target is not None else {"k": "unreachable", "sp": sp}
         blocks.append(nb)
+
+
+def _capture_places(body, f_op):
+    """For a closure held in local f_op: {upvar index: (place, by_ref)} where place is the caller's place the upvar stands for —
+    `&mut x` / `&x` captures give x (by_ref=True), by-value captures of a plain local give that local (by_ref=False)."""
+    if f_op.get("k") not in ("move", "copy") or f_op["pl"]["p"]:
+        return {}
+    l = f_op["pl"]["l"]
+    agg = None
+    for bb in body["blocks"]:
+        for st in bb["stmts"]:
+            if st["k"] == "assign" and st["pl"]["l"] == l and not st["pl"]["p"] and st["rv"].get("k") == "agg" and st["rv"].get("agg") == "closure":
+                agg = st["rv"]
+    if agg is None:
+        return {}
+    out = {}
+    for k, op in enumerate(agg["ops"]):
+        if op.get("k") not in ("move", "copy") or op["pl"]["p"]:
+            continue
+        t = op["pl"]["l"]
+        defs = [st["rv"] for bb in body["blocks"] for st in bb["stmts"] if st["k"] == "assign" and st["pl"]["l"] == t and not st["pl"]["p"]]
+        if len(defs) == 1 and defs[0].get("k") == "ref":
+            out[k] = (defs[0]["pl"], True)
+        elif len(defs) == 1 and defs[0].get("k") == "use" and defs[0]["ops"][0].get("k") in ("copy", "move") and False:
+            out[k] = (defs[0]["ops"][0]["pl"], False)
+    return out
+
+
+def _forward_upvars(x, env_local, env_is_ref, caps):
+    """Rewrite every place `(*(*env).k)` (env by reference) / `(*env.k)` in the inlined closure body into the caller's captured place, so that
+    reads and WRITES of a captured variable are reads and writes of that variable."""
+    if isinstance(x, dict):
+        if "l" in x and "p" in x and isinstance(x["l"], int) and x["l"] == env_local:
+            p = x["p"]
+            i = 1 if (env_is_ref and p and p[0][0] == "deref") else 0
+            if len(p) > i + 1 and p[i][0] == "field" and p[i + 1][0] == "deref" and p[i][1] in caps and caps[p[i][1]][1]:
+                base = caps[p[i][1]][0]
+                return {"l": base["l"], "p": copy.deepcopy(base["p"]) + copy.deepcopy(p[i + 2:])}
+            return x
+        return {k: _forward_upvars(v, env_local, env_is_ref, caps) for k, v in x.items()}
+    if isinstance(x, list):
+        return [_forward_upvars(v, env_local, env_is_ref, caps) for v in x]
+    return x
 
 
 def _closure_def(body, op):
@@ -113,17 +157,26 @@ def _desugar_map_collect(caller, bi, by_path):
     return _desugar_for_each(caller, bi, by_path, collect_into_vec=True)
 
 
-def _desugar_for_each(caller, bi, by_path, collect_into_vec=False, try_mode=False):
+def _desugar_for_each(caller, bi, by_path, collect_into_vec=False, try_mode=False, fold=False):
     """`Iterator::for_each(iter, f)` -> an explicit `loop { match iter.next() { Some(x) => f(x), None => break } }` with the closure's body
     inlined, so that rules written for `for` loops see the same shape.  Returns True when the call was rewritten.
     collect_into_vec: the results of f are pushed into a fresh Vec that becomes the value of the call (map + collect)."""
     blocks = caller["blocks"]
     t = blocks[bi]["term"]
-    if len(t.get("args", [])) != 2 or t.get("target") is None:
-        return False
-    it_op, f_op = t["args"]
+    acc_op = None
+    if fold:
+        # fold(iter, init, f) / try_fold(&mut iter, init, f): an accumulator is threaded through the closure
+        if len(t.get("args", [])) != 3 or t.get("target") is None:
+            return False
+        it_op, acc_op, f_op = t["args"]
+    else:
+        if len(t.get("args", [])) != 2 or t.get("target") is None:
+            return False
+        it_op, f_op = t["args"]
     cd = _closure_def(caller, f_op)
     if cd is None:
+        return False
+    if fold and cd[0] != "closure":
         return False
     if cd[0] == "closure" and cd[1] not in by_path:
         return False
@@ -139,7 +192,11 @@ def _desugar_for_each(caller, bi, by_path, collect_into_vec=False, try_mode=Fals
     nb = len(blocks)
     H, S, B, E, U = nb, nb + 1, nb + 2, nb + 3, nb + 4
     P_ = nb + 5          # push block (map + collect) / `?` on the closure's result (try_for_each)
-    after_f = P_ if (collect_into_vec or try_mode) else H
+    after_f = P_ if (collect_into_vec or try_mode or fold) else H
+    l_acc = None
+    if fold:
+        l_acc = newl("?", "acc")
+        blocks[bi]["stmts"].append({"k": "assign", "pl": {"l": l_acc, "p": []}, "rv": {"k": "use", "ops": [copy.deepcopy(acc_op)]}, "sp": sp, "inl": "fold"})
     if try_mode and not (not dest["p"] and locs[dest["l"]]["ty"].startswith("std::result::Result<")):
         return False
     blocks[bi]["stmts"].append({"k": "assign", "pl": {"l": l_it, "p": []}, "rv": {"k": "use", "ops": [copy.deepcopy(it_op)]}, "sp": sp, "inl": "for_each"})
@@ -178,12 +235,19 @@ def _desugar_for_each(caller, bi, by_path, collect_into_vec=False, try_mode=Fals
         env = ({"k": "ref", "bk": "mut", "pl": copy.deepcopy(f_op["pl"])} if envty.startswith("&mut") else
                {"k": "ref", "bk": "shared", "pl": copy.deepcopy(f_op["pl"])} if envty.startswith("&") else {"k": "use", "ops": [copy.deepcopy(f_op)]})
         l_env = newl(envty or "?")
-        fake = {"k": "call", "args": [{"k": "move", "pl": {"l": l_env, "p": []}}, {"k": "move", "pl": {"l": l_elem, "p": []}}], "dest": {"l": l_unit, "p": []}, "target": after_f, "sp": sp}
+        fargs = [{"k": "move", "pl": {"l": l_env, "p": []}}] + ([{"k": "move", "pl": {"l": l_acc, "p": []}}] if fold else []) + [{"k": "move", "pl": {"l": l_elem, "p": []}}]
+        fake = {"k": "call", "args": fargs, "dest": {"l": l_unit, "p": []}, "target": after_f, "sp": sp}
         blocks.append({"stmts": [elem_stmt, {"k": "assign", "pl": {"l": l_env, "p": []}, "rv": env, "sp": sp}], "term": fake})
     if isinstance(collect_into_vec, dict):
         blocks.append({"stmts": [{"k": "assign", "pl": copy.deepcopy(dest), "rv": {"k": "agg", "ops": [], "agg": "tuple"}, "sp": sp}], "term": {"k": "goto", "target": target, "sp": sp}})
     elif collect_into_vec:
         blocks.append({"stmts": [{"k": "assign", "pl": copy.deepcopy(dest), "rv": {"k": "use", "ops": [{"k": "move", "pl": {"l": l_vec, "p": []}}]}, "sp": sp}], "term": {"k": "goto", "target": target, "sp": sp}})
+    elif fold and not try_mode:
+        blocks.append({"stmts": [{"k": "assign", "pl": copy.deepcopy(dest), "rv": {"k": "use", "ops": [{"k": "move", "pl": {"l": l_acc, "p": []}}]}, "sp": sp}], "term": {"k": "goto", "target": target, "sp": sp}})
+    elif fold and try_mode:
+        blocks.append({"stmts": [{"k": "assign", "pl": copy.deepcopy(dest), "rv": {"k": "agg", "ops": [{"k": "move", "pl": {"l": l_acc, "p": []}}], "agg": "adt", "adt": "std::result::Result",
+                                                                                  "adtargs": "std::result::Result", "variant": "Ok", "vidx": 0, "fields": ["0"]}, "sp": sp}],
+                       "term": {"k": "goto", "target": target, "sp": sp}})
     elif try_mode:
         l_u = newl("()")
         blocks.append({"stmts": [{"k": "assign", "pl": {"l": l_u, "p": []}, "rv": {"k": "agg", "ops": [], "agg": "tuple"}, "sp": sp},
@@ -193,6 +257,9 @@ def _desugar_for_each(caller, bi, by_path, collect_into_vec=False, try_mode=Fals
     else:
         blocks.append({"stmts": [{"k": "assign", "pl": copy.deepcopy(dest), "rv": {"k": "agg", "ops": [], "agg": "tuple"}, "sp": sp}], "term": {"k": "goto", "target": target, "sp": sp}})
     blocks.append({"stmts": [], "term": {"k": "unreachable", "sp": sp}})
+    if fold and not try_mode:
+        blocks.append({"stmts": [{"k": "assign", "pl": {"l": l_acc, "p": []}, "rv": {"k": "use", "ops": [{"k": "move", "pl": {"l": l_unit, "p": []}}]}, "sp": sp, "inl": "fold"}],
+                       "term": {"k": "goto", "target": H, "sp": sp}})
     if try_mode:
         # P_: `match Try::branch(r) { Continue(()) => next iteration, Break(residual) => return FromResidual::from_residual(residual) }`
         l_cf, l_cd, l_rs = newl("std::ops::ControlFlow<?, ()>"), newl("isize"), newl("?")
@@ -203,7 +270,7 @@ def _desugar_for_each(caller, bi, by_path, collect_into_vec=False, try_mode=Fals
                                               "dest": {"l": l_cf, "p": []}, "target": SW, "fnsp": sp, "sp": sp, "callee": "std::ops::Try::branch", "callee_args": br, "targs": [],
                                               "trait": "std::ops::Try", "exp": True}})
         blocks.append({"stmts": [{"k": "assign", "pl": {"l": l_cd, "p": []}, "rv": {"k": "discr", "pl": {"l": l_cf, "p": []}}, "sp": sp}],
-                       "term": {"k": "switch", "discr": {"k": "move", "pl": {"l": l_cd, "p": []}}, "dty": "isize", "arms": [["0", H], ["1", BK]], "otherwise": U, "sp": sp}})
+                       "term": {"k": "switch", "discr": {"k": "move", "pl": {"l": l_cd, "p": []}}, "dty": "isize", "arms": [["0", (nb + 8) if fold else H], ["1", BK]], "otherwise": U, "sp": sp}})
         blocks.append({"stmts": [{"k": "assign", "pl": {"l": l_rs, "p": []}, "rv": {"k": "use", "ops": [{"k": "move", "pl": {"l": l_cf, "p": [["downcast", 1, "Break"], ["field", 0, "0"]]}}]}, "sp": sp}],
                        "term": {"k": "call", "func": {"k": "const", "ty": "fn", "fn": "std::ops::FromResidual::from_residual", "fnargs": fr}, "args": [{"k": "move", "pl": {"l": l_rs, "p": []}}],
                                 "dest": copy.deepcopy(dest), "target": target, "fnsp": sp, "sp": sp, "callee": "std::ops::FromResidual::from_residual", "callee_args": fr, "targs": [],
@@ -222,7 +289,33 @@ def _desugar_for_each(caller, bi, by_path, collect_into_vec=False, try_mode=Fals
                                 "args": [{"k": "move", "pl": {"l": l_vref, "p": []}}, {"k": "move", "pl": {"l": l_unit, "p": []}}], "dest": {"l": l_pu, "p": []}, "target": H,
                                 "fnsp": sp, "sp": sp, "callee": "std::vec::Vec::<T>::push", "callee_args": push, "targs": [], "inl": "map_collect"}})
     if cd[0] == "closure":
+        n0, l0 = len(blocks), len(locs)
+        caps = _capture_places(caller, f_op)
         _inline_one(caller, B, copy.deepcopy(by_path[cd[1]]))
+        if caps:
+            env_local = l0 + 1       # the closure body's own _1 after renumbering
+            # rustc splits nested dereferences with `deref_copy` temporaries (`_t = deref_copy (*_1).0; (*_t) = ..`): undo that first
+            cfd = {}
+            for bi_ in range(n0, len(blocks)):
+                for st in blocks[bi_]["stmts"]:
+                    if st["k"] == "assign" and not st["pl"]["p"] and st["rv"].get("k") == "use" and st["rv"]["ops"][0].get("k") == "copy" \
+                            and (st["rv"].get("cfd") or st["rv"]["ops"][0]["pl"]["l"] == env_local) and st["pl"]["l"] >= l0:
+                        cfd.setdefault(st["pl"]["l"], []).append(st["rv"]["ops"][0]["pl"])
+            # only temporaries with one and the same source everywhere
+            cfd = {k_: v_[0] for k_, v_ in cfd.items() if all(x_ == v_[0] for x_ in v_)}
+
+            def undo_cfd(x):
+                if isinstance(x, dict):
+                    if "l" in x and "p" in x and isinstance(x["l"], int) and x["l"] in cfd and x["p"] and x["p"][0][0] == "deref":
+                        src = cfd[x["l"]]
+                        return {"l": src["l"], "p": copy.deepcopy(src["p"]) + copy.deepcopy(x["p"])}
+                    return {k: undo_cfd(v) for k, v in x.items()}
+                if isinstance(x, list):
+                    return [undo_cfd(v) for v in x]
+                return x
+            for bi_ in range(n0, len(blocks)):
+                nb_ = undo_cfd(blocks[bi_]) if cfd else blocks[bi_]
+                blocks[bi_] = _forward_upvars(nb_, env_local, envty.startswith("&"), caps)
     return True
 
 
@@ -240,7 +333,7 @@ def inline_new_helpers(raw, baseline=None):
     for b in raw["bodies"]:
         for _ in range(MAX_DEPTH):
             sites = [bi for bi, bb in enumerate(b["blocks"]) if bb["term"].get("k") == "call" and not bb.get("cleanup")
-                     and ((bb["term"].get("callee") or "").endswith("iter::Iterator::for_each") or (bb["term"].get("callee") or "").endswith("iter::Iterator::try_for_each"))]
+                     and re.search(r"iter::Iterator::(for_each|try_for_each|fold|try_fold)$", bb["term"].get("callee") or "")]
             if not sites or len(b["blocks"]) > MAX_BLOCKS:
                 break
             if pristine_all is None:
@@ -251,7 +344,8 @@ def inline_new_helpers(raw, baseline=None):
                     if _desugar_map_collect(b, bi, pristine_all):
                         done.append((b["path"], "map_collect"))
                         n += 1
-                elif _desugar_for_each(b, bi, pristine_all, try_mode=(b["blocks"][bi]["term"].get("callee") or "").endswith("try_for_each")):
+                elif _desugar_for_each(b, bi, pristine_all, try_mode=bool(re.search(r"::try_(for_each|fold)$", b["blocks"][bi]["term"].get("callee") or "")),
+                                       fold=bool(re.search(r"::(try_)?fold$", b["blocks"][bi]["term"].get("callee") or ""))):
                     done.append((b["path"], "for_each"))
                     n += 1
             if not n:
